@@ -384,6 +384,23 @@ class RenderContext:
             finally:
                 self.loops.pop()
 
+    @contextmanager
+    def iterations(self, length: int) -> Iterator[RenderContext]:
+        """Check the loop iteration limit and count _length_ repetitions.
+
+        For tags that repeat a block without pushing a `ForLoop` on to the loop
+        stack. The number of repetitions is carried to any loop iteration limit
+        check made while the block is rendered.
+        """
+        self.raise_for_loop_limit(length)
+        carry = self.loop_iteration_carry
+        self.loop_iteration_carry = carry * length
+
+        try:
+            yield self
+        finally:
+            self.loop_iteration_carry = carry
+
     def parentloop(self) -> Union[Undefined, object]:
         """Return the last ForLoop object from the loop stack."""
         try:
